@@ -19,6 +19,14 @@ impl Stack {
         Seq::new(self.inner@.len(), |i: int| self.inner@[i].kind())
     }
 
+//@fn src/stack.rs Stack::new
+//@ret res
+//@props C08 C10 C09
+//@subst Self::default() => vf_stack_default()
+//@contract
+    ensures res.inner@.len() == 0,
+//@endfn
+
 //@fn src/stack.rs Stack::reset
 //@props C01 C02 C03 C05 C06 C10 C11 C17 C09
 //@contract
@@ -94,6 +102,18 @@ pub open spec fn arg_link(op: OpcodeKind, arg_bytes: Option<&[u8]>, a: RefArg) -
 }
 
 impl State {
+//@fn src/state.rs State::new
+//@ret res
+//@props C08 C10 C09
+//@subst ..Default::default() => ..vf_state_default()
+//@contract
+    ensures
+        res.version == version,
+        !res.proto_emitted,
+        res.stack.inner@.len() == 0,
+        res.memo@ == Map::<usize, StackObjectRef>::empty(),
+//@endfn
+
 //@fn src/state.rs State::reset
 //@props C08 C01 C05 C09
 //@contract
@@ -1172,7 +1192,6 @@ pub fn get_random_module(&self, source: &mut GenerationSource) -> (r: Result<VfT
 //@arm BinGet
 //@subst self.state.memo.keys().filter(|&&k| k < 256).copied().collect() => vf_keys_below(&self.state.memo, 256)
 //@subst? valid_indices.sort_unstable() => vf_sort_unstable(&mut valid_indices)
-//@subst self.mutate_memo_index(index, source).min(255) => vf_min_usize(self.mutate_memo_index(index, source), 255)
 //@rewrite R14 process_stack_ops self.process_stack_ops($ARGS, Ghost(r), Ghost(RefArg { idx: index as int }))
 //@prelude
         let ghost mut gidx: int = 0;
@@ -1226,7 +1245,6 @@ pub fn get_random_module(&self, source: &mut GenerationSource) -> (r: Result<VfT
             assert(self.emit_post(old(self), r, opcode, opcode, RefArg { idx: gidx }, chunk));
         }
 //@arm Ext1
-//@subst source.gen_u8().saturating_add(1) => vf_sat_add_u8(source.gen_u8(), 1)
 //@subst debug_assert!(code >= 1, "EXT1 code out of range: {}", code) => assert(code >= 1) /* @C04 */
 //@rewrite R14 process_stack_ops self.process_stack_ops($ARGS, Ghost(r), Ghost(RefArg { idx: 0 }))
 //@before 1 Ok(())
@@ -1238,7 +1256,6 @@ pub fn get_random_module(&self, source: &mut GenerationSource) -> (r: Result<VfT
             assert(self.emit_post(old(self), r, opcode, opcode, RefArg { idx: 0 }, chunk));
         }
 //@arm Ext2
-//@subst source.gen_u16().saturating_add(1) => vf_sat_add_u16(source.gen_u16(), 1)
 //@subst debug_assert!(code >= 1, "EXT2 code out of range: {}", code) => assert(code >= 1) /* @C04 */
 //@substall code.to_le_bytes() => vf_u16_to_le_bytes(code)
 //@rewrite R14 process_stack_ops self.process_stack_ops($ARGS, Ghost(r), Ghost(RefArg { idx: 0 }))
@@ -1471,7 +1488,6 @@ pub fn get_random_module(&self, source: &mut GenerationSource) -> (r: Result<VfT
 //@props C01 C02 C03 C04 C05 C06 C08 C09 C10 C11
 //@sigsubst Result<Vec<u8>> => Result<Vec<u8>, VfError>
 //@subst self.state.version >= Version::V4 => vf_version_ge(self.state.version, Version::V4)
-//@subst self.max_opcodes.saturating_sub(self.min_opcodes) => vf_sat_sub_usize(self.max_opcodes, self.min_opcodes)
 //@rewrite R16
 //@subst self.output.len().checked_sub(pos + 9).ok_or_else(|| { ... })? => vf_checked_sub_or_err(self.output.len(), pos + 9)?
 //@subst color_eyre::eyre::eyre!( ... ) => VfError { code: 2 }
@@ -1895,7 +1911,6 @@ pub fn get_random_module(&self, source: &mut GenerationSource) -> (r: Result<VfT
 //@arm BinGet
 //@subst self.state.memo.keys().filter(|&&k| k < 256).copied().collect() => vf_keys_below(&self.state.memo, 256)
 //@subst? valid_indices.sort_unstable() => vf_sort_unstable(&mut valid_indices)
-//@subst self.mutate_memo_index(index, source).min(255) => vf_min_usize(self.mutate_memo_index(index, source), 255)
 //@rewrite R14? process_stack_ops self.process_stack_ops($ARGS, Ghost(r), Ghost(RefArg { idx: index as int }))
 //@after 1 let index = valid_indices[
                     proof { assert(valid_indices@.contains(index)); }
@@ -1935,7 +1950,6 @@ pub fn get_random_module(&self, source: &mut GenerationSource) -> (r: Result<VfT
             Generator::lemma_emit_u(old(self), g_out, self.output@, old(self).output@.len());
         }
 //@arm Ext1
-//@subst source.gen_u8().saturating_add(1) => vf_sat_add_u8(source.gen_u8(), 1)
 //@subst debug_assert!(code >= 1, "EXT1 code out of range: {}", code) => assert(code >= 1) /* @C04 */
 //@rewrite R14? process_stack_ops self.process_stack_ops($ARGS, Ghost(r), Ghost(RefArg { idx: 0 }))
 //@before 1 self.post_process_emission(
@@ -1954,7 +1968,6 @@ pub fn get_random_module(&self, source: &mut GenerationSource) -> (r: Result<VfT
             Generator::lemma_emit_u(old(self), g_out, self.output@, old(self).output@.len());
         }
 //@arm Ext2
-//@subst source.gen_u16().saturating_add(1) => vf_sat_add_u16(source.gen_u16(), 1)
 //@subst debug_assert!(code >= 1, "EXT2 code out of range: {}", code) => assert(code >= 1) /* @C04 */
 //@substall code.to_le_bytes() => vf_u16_to_le_bytes(code)
 //@rewrite R14? process_stack_ops self.process_stack_ops($ARGS, Ghost(r), Ghost(RefArg { idx: 0 }))
@@ -2078,7 +2091,6 @@ pub fn get_random_module(&self, source: &mut GenerationSource) -> (r: Result<VfT
 //@props C04 C06 C09 C10
 //@sigsubst Result<Vec<u8>> => Result<Vec<u8>, VfError>
 //@subst self.state.version >= Version::V4 => vf_version_ge(self.state.version, Version::V4)
-//@subst self.max_opcodes.saturating_sub(self.min_opcodes) => vf_sat_sub_usize(self.max_opcodes, self.min_opcodes)
 //@rewrite R16
 //@subst self.output.len().checked_sub(pos + 9).ok_or_else(|| { ... })? => vf_checked_sub_or_err(self.output.len(), pos + 9)?
 //@subst color_eyre::eyre::eyre!( ... ) => VfError { code: 2 }
@@ -2150,6 +2162,169 @@ pub fn get_random_module(&self, source: &mut GenerationSource) -> (r: Result<VfT
             assert(out.subrange(h, out.len() as int) =~= flat(gch) + codes(tail) + seq![0x2eu8]); // @C04 @C06
             assert(self.gen_post_u(old(self), out, use_frame, gch, tail));
         }
+//@endfn
+
+
+    // ---- configuration API: what "enabled", "configured" and "without unsafe mutations" in the property
+    // statements mean in terms of the fields the generation contracts talk about.  Every builder states the
+    // whole frame: the field it sets and that every other field keeps its value.
+    pub open spec fn cfg_eq_except(&self, o: &Generator, seed: bool, bufsize: bool, minmax: bool, muts: bool, rate: bool, uns: bool, ext: bool, buf: bool) -> bool {
+        &&& self.state == o.state && self.output == o.output
+        &&& (seed || self.seed == o.seed)
+        &&& (bufsize || self.bufsize == o.bufsize)
+        &&& (minmax || (self.min_opcodes == o.min_opcodes && self.max_opcodes == o.max_opcodes))
+        &&& (muts || self.mutators == o.mutators)
+        &&& (rate || self.mutation_rate == o.mutation_rate)
+        &&& (uns || self.unsafe_mutations == o.unsafe_mutations)
+        &&& (ext || self.allow_ext_opcodes == o.allow_ext_opcodes)
+        &&& (buf || self.allow_buffer_opcodes == o.allow_buffer_opcodes)
+    }
+    /// the documented defaults (README / rustdoc of Generator): nothing opted in
+    pub open spec fn is_default_config(&self) -> bool {
+        &&& self.seed is None && self.bufsize is None
+        &&& self.min_opcodes == 60 && self.max_opcodes == 300
+        &&& vf_mutators_len_spec(&self.mutators) == 0
+        &&& !self.unsafe_mutations
+        &&& !self.allow_ext_opcodes   // @C10
+        &&& !self.allow_buffer_opcodes   // @C10
+        &&& self.output@.len() == 0
+    }
+
+//@fn src/generator/mod.rs Generator::default as vf_default
+//@ret res
+//@props C10 C08 C11 C09
+//@subst State::default() => vf_state_default()
+//@subst mutators: Vec::new() => mutators: vf_mutators_empty()
+//@contract
+    ensures
+        res.is_default_config(), // @C10 @C11
+        !res.state.proto_emitted && res.state.stack.inner@.len() == 0 && res.state.memo@ == Map::<usize, StackObjectRef>::empty(),
+//@endfn
+
+//@fn src/generator/mod.rs Generator::new
+//@ret res
+//@props C10 C08 C11 C09
+//@subst ..Default::default() => ..Self::vf_default()
+//@contract
+    ensures
+        res.is_default_config(), // @C10 @C11
+        res.state.version == version,
+        !res.state.proto_emitted && res.state.stack.inner@.len() == 0 && res.state.memo@ == Map::<usize, StackObjectRef>::empty(),
+//@endfn
+
+//@fn src/generator/mod.rs Generator::with_seed
+//@ret res
+//@props C07 C10 C09
+//@sigsubst mut self => self
+//@rewrite R19
+//@contract
+    ensures res.seed == Some(seed), // @C07
+        res.cfg_eq_except(&self, true, false, false, false, false, false, false, false), // @C10 @C07
+//@endfn
+
+//@fn src/generator/mod.rs Generator::with_buffer_size
+//@ret res
+//@props C10 C09
+//@sigsubst mut self => self
+//@rewrite R19
+//@contract
+    ensures res.bufsize == Some(size),
+        res.cfg_eq_except(&self, false, true, false, false, false, false, false, false), // @C10
+//@endfn
+
+//@fn src/generator/mod.rs Generator::with_min_opcodes
+//@ret res
+//@props C11 C10 C09
+//@sigsubst mut self => self
+//@rewrite R19
+//@contract
+    ensures res.min_opcodes == min && res.max_opcodes == self.max_opcodes, // @C11
+        res.cfg_eq_except(&self, false, false, true, false, false, false, false, false), // @C10 @C11
+//@endfn
+
+//@fn src/generator/mod.rs Generator::with_max_opcodes
+//@ret res
+//@props C11 C10 C09
+//@sigsubst mut self => self
+//@rewrite R19
+//@contract
+    ensures res.max_opcodes == max && res.min_opcodes == self.min_opcodes, // @C11
+        res.cfg_eq_except(&self, false, false, true, false, false, false, false, false), // @C10 @C11
+//@endfn
+
+//@fn src/generator/mod.rs Generator::with_opcode_range
+//@ret res
+//@props C11 C10 C09
+//@sigsubst mut self => self
+//@rewrite R19
+//@contract
+    ensures res.min_opcodes == min && res.max_opcodes == max, // @C11
+        res.cfg_eq_except(&self, false, false, true, false, false, false, false, false), // @C10 @C11
+//@endfn
+
+//@fn src/generator/mod.rs Generator::with_mutators
+//@ret res
+//@props C10 C15 C09
+//@sigsubst mut self => self
+//@sigsubst Vec<Box<dyn Mutator>> => VfMutators
+//@rewrite R19
+//@contract
+    ensures res.mutators == mutators,
+        res.cfg_eq_except(&self, false, false, false, true, false, false, false, false), // @C10
+//@endfn
+
+//@fn src/generator/mod.rs Generator::with_mutator
+//@ret res
+//@props C10 C15 C09
+//@sigsubst mut self => self
+//@sigsubst Box<dyn Mutator> => VfMutator
+//@rewrite R19
+//@subst vf_self.mutators.push(mutator) => vf_mutators_push(&mut vf_self.mutators, mutator)
+//@contract
+    ensures
+        vf_mutators_len_spec(&res.mutators) == vf_mutators_len_spec(&self.mutators) + 1,
+        res.cfg_eq_except(&self, false, false, false, true, false, false, false, false), // @C10
+//@endfn
+
+//@fn src/generator/mod.rs Generator::with_mutation_rate
+//@ret res
+//@props C10 C15 C09
+//@sigsubst mut self => self
+//@rewrite R19
+//@subst rate.clamp(0.0, 1.0) => vf_clamp01(rate)
+//@contract
+    ensures
+        res.cfg_eq_except(&self, false, false, false, false, true, false, false, false), // @C10
+//@endfn
+
+//@fn src/generator/mod.rs Generator::with_unsafe_mutations
+//@ret res
+//@props C10 C03 C09
+//@sigsubst mut self => self
+//@rewrite R19
+//@contract
+    ensures res.unsafe_mutations == unsafe_mutations,
+        res.cfg_eq_except(&self, false, false, false, false, false, true, false, false), // @C10
+//@endfn
+
+//@fn src/generator/mod.rs Generator::with_ext_opcodes
+//@ret res
+//@props C10 C09
+//@sigsubst mut self => self
+//@rewrite R19
+//@contract
+    ensures res.allow_ext_opcodes == allow, // @C10
+        res.cfg_eq_except(&self, false, false, false, false, false, false, true, false), // @C10
+//@endfn
+
+//@fn src/generator/mod.rs Generator::with_buffer_opcodes
+//@ret res
+//@props C10 C09
+//@sigsubst mut self => self
+//@rewrite R19
+//@contract
+    ensures res.allow_buffer_opcodes == allow, // @C10
+        res.cfg_eq_except(&self, false, false, false, false, false, false, false, true), // @C10
 //@endfn
 
 //@fn src/generator/mod.rs Generator::generate
